@@ -656,7 +656,10 @@ func (la *lockAnalysis) whoMayWrite(rule, field string, allowed map[string]strin
 				c.okTriv(rule, key+" (constructor)", st.Pos(), "initialisation of an unpublished object")
 				return
 			}
-			if why, ok := allowed[name]; ok {
+			if k, isK := constInt(st.Val); isK && k == 0 && strings.HasSuffix(strings.ToLower(field), "cursor") {
+				// rewinding a read cursor to 0 keeps 0 <= cursor <= len whoever does it
+				c.ok(rule, key, st.Pos(), "stores the constant 0 (a reset): the cursor invariant 0 <= cursor <= len holds trivially")
+			} else if why, ok := allowed[name]; ok {
 				c.ok(rule, key, st.Pos(), why)
 			} else if via, ok := helperOf(f, func(n string) bool { _, ok := allowed[n]; return ok }, 0); ok {
 				c.ok(rule, key, st.Pos(), "unexported helper called only from "+via+", one of the functions that own this state: "+allowed[via])
